@@ -2,7 +2,8 @@
 
 Differential monitor with query_table (itself pinned by C01-C05 / C07) as the reference: rbql.query with user-written iterator / writer
 classes, query_csv file -> file, `python -m rbql` (files and stdin / stdout, --out-format input | csv | tsv, --with-headers),
-query_pandas_dataframe, SqliteRecordIterator + query_sqlite_to_csv, `python -m rbql sqlite`.  Process observers: exit status,
+query_pandas_dataframe, SqliteRecordIterator + query_sqlite_to_csv, `python -m rbql sqlite`; an options leg varies the parameters of the
+CSV entry points (comment prefix, init source, latin-1, default policy).  Process observers: exit status,
 stdout and stderr captured separately.
 """
 import copy
@@ -243,6 +244,8 @@ def run_shard(spec, res):
     try:
         if spec['kind'] == 'failing':
             return failing_leg(ns, res, spec, d, rng)
+        if spec['kind'] == 'options':
+            return options_leg(ns, res, spec, d, rng)
         import pandas as pd
         for n in range(spec['n']):
             idx = n * spec['k'] + spec['i']
@@ -397,6 +400,195 @@ def run_shard(spec, res):
         shutil.rmtree(d, ignore_errors=True)
 
 
+COMMENT_PREFIXES = ['#', '//', '#!', '>>', '-', 'rem ', '"', '%%']      # not '--': argparse itself swallows that value
+LATIN1_CELLS = ['a', 'b', '1', '2', 'x y', 'caf\xe9', '\xff\xfe', '\xa0', 'q"t', 'a,b', '\xd7', '', '\x80\x9f']
+
+
+def with_comments(text, prefix, rng):
+    body = text.split('\n')[:-1]
+    out = []
+    for l in body:
+        while rng.random() < 0.3:
+            out.append(prefix + rng.choice(['', ' note', ',"unbalanced', prefix, ' a,b,c,d,e,f', '\t']))
+        out.append(l)
+    while rng.random() < 0.4:
+        out.append(prefix + ' end')
+    return '\n'.join(out) + '\n'
+
+
+def options_leg(ns, res, spec, d, rng):
+    """The parameters of the CSV entry points: comment prefix, init source (explicit file / ~/.rbql_init_source.py / user_init_code), latin-1, default policy."""
+    for n in range(spec['n']):
+        idx = n * spec['k'] + spec['i']
+        mode = ['comment', 'init', 'latin1', 'defpolicy'][idx % 4]
+        case = gen_case(rng, rng.randrange(0, 224) * 6 + rng.choice([0, 2, 3, 5]))      # never the multi-line family
+        if case.get('multiline'):
+            continue
+        q = copy.deepcopy(case['q'])
+        A, B, an, bn = case['A'], case['B'], case['a_names'], case['b_names']
+        init = ''
+        if mode == 'init':
+            if q['kind'] != 'select' or q.get('group') or any(it['kind'] == 'agg' for it in q['items']) or q.get('except') is not None:
+                mode = 'comment'
+            else:
+                q['items'].append({'kind': 'expr', 'expr': ['uvar', rng.choice(sorted(qast.UVARS))]})
+                q['items'].append({'kind': 'expr', 'expr': ['call', 'f', [['field', 'a', 0, 'var']] * rng.randrange(0, 3)]})
+                init = qast.INIT_PY
+        if mode == 'latin1':
+            for t in (A, B or []):
+                for r in t:
+                    for j in range(len(r)):
+                        if rng.random() < 0.5:
+                            r[j] = rng.choice(LATIN1_CELLS)
+            if B:
+                for r in B:
+                    if rng.random() < 0.7 and A:
+                        r[0] = rng.choice(A)[0]
+        if mode == 'defpolicy' and A:
+            # a cell whose CSV form depends on the policy in force
+            rng.choice(A)[-1] = rng.choice(['q"t', '"q"', 'x;y', 'x,y', ' "p" '])
+        has_header = an is not None
+        qtext = qast.render(q, qast.Ctx(an, bn), 'py')
+        ref = boundary.run_query_table(ns, qtext, [list(x) for x in A], None if B is None else [list(x) for x in B], an, bn, True, init)
+        if not acceptable(ref):
+            res.count('cases_skipped_not_type_agnostic')
+            continue
+        exp_rows = norm_rows(ref['rows'])
+        exp_header = ref['header']
+        enc = 'latin-1' if mode == 'latin1' else 'utf-8'
+        dlm, pol, cli_dlm = (',', 'quoted', ',')
+        if mode == 'defpolicy':
+            dlm, pol, cli_dlm = [(',', 'quoted', ','), (';', 'quoted', ';'), ('\t', 'simple', 'TAB'), ('|', 'simple', '|'), (' ', 'whitespace', ' '), ('::', 'simple', '::')][(idx // 4) % 6]
+        alltext = ([an] if an else []) + A + (B or []) + ([bn] if bn else [])
+        if mode == 'latin1' and not qtext.isascii():
+            res.count('cases_skipped_not_encodable')      # documented: a non-ASCII query needs the utf-8 encoding
+            continue
+        try:
+            (qtext + repr(alltext) + repr(exp_rows) + repr(exp_header)).encode(enc)
+        except UnicodeEncodeError:
+            res.count('cases_skipped_not_encodable')
+            continue
+        if not refcsv.representable(alltext, dlm, pol, enc) or not refcsv.representable(exp_rows or [['x']], dlm, pol, enc):
+            if mode == 'defpolicy':
+                res.count('cases_skipped_not_representable')
+                continue
+        cd = os.path.join(d, 'o%d' % n)
+        os.mkdir(cd)
+        home = os.path.join(cd, 'home')
+        os.mkdir(home)
+        prefix = None
+        ta = csv_text(A, an, dlm, pol)
+        tb = csv_text(B, bn, dlm, pol) if B is not None else None
+        if mode == 'comment':
+            ok = [p for p in COMMENT_PREFIXES if not any(l.startswith(p) for l in (ta + (tb or '')).split('\n'))]
+            if not ok:
+                continue
+            prefix = ok[idx // 4 % len(ok)]
+            ta = with_comments(ta, prefix, rng)
+            if tb is not None:
+                tb = with_comments(tb, prefix, rng)
+        inp = os.path.join(cd, 'in.csv')
+        with open(inp, 'w', encoding=enc, newline='') as f:
+            f.write(ta)
+        q_csv = copy.deepcopy(q)
+        if B is not None:
+            with open(os.path.join(cd, 'jn.csv'), 'w', encoding=enc, newline='') as f:
+                f.write(tb)
+            q_csv['join']['table'] = 'jn.csv'
+        qtext_csv = qast.render(q_csv, qast.Ctx(an, bn), 'py')
+        out_has_header = bool(exp_header)
+        res.count('option_cases:' + mode)
+        res.count('cases')
+        if exp_rows:
+            res.nontrivial(mode, qtext, repr(A), repr(B))
+        cs = dict(common.case_json(q, {'A': A, 'B': B, 'a_names': an, 'b_names': bn}), query_text=qtext_csv, leg='options', mode=mode, comment_prefix=prefix, input_text=ta, join_text=tb)
+
+        def cmp(front, data, dl, po, err=None):
+            res.evaluations += 1
+            res.count('front_end:' + front)
+            if err is not None:
+                res.violation('py:front-end-error:' + front, '[%s] %s raised %s ; query_table gives %r' % (front, qtext_csv, err, exp_rows), dict(cs, front_end=front))
+                return
+            r = refcsv.read_text(data.decode(enc), dl, po, enc, out_has_header)
+            if norm_rows(r.records) != exp_rows:
+                res.violation('py:front-end-rows-differ:' + front, '[%s] %s -> %r ; query_table -> %r (input file %r join file %r)' % (front, qtext_csv, norm_rows(r.records), exp_rows, ta, tb), dict(cs, front_end=front))
+            elif (list(r.header) if r.header else None) != (list(exp_header) if exp_header else None):
+                res.violation('py:front-end-header-differs:' + front, '[%s] %s -> header %r ; query_table -> %r' % (front, qtext_csv, r.header, exp_header), dict(cs, front_end=front))
+
+        # the library
+        outp = os.path.join(cd, 'out.csv')
+        init_file = os.path.join(cd, 'init_source.py')
+        use_home = mode == 'init' and idx % 8 >= 4
+        if mode == 'init':
+            with open(os.path.join(home, '.rbql_init_source.py') if use_home else init_file, 'w') as f:
+                f.write(init)
+        err = data = None
+        old_home = os.environ.get('HOME')
+        os.environ['HOME'] = home
+        try:
+            ns.rbql.query_csv(qtext_csv, inp, dlm, pol, outp, dlm, pol, enc, [], has_header, prefix, '' if use_home else init)
+            with open(outp, 'rb') as f:
+                data = f.read()
+        except Exception as e:
+            err = '%s: %s' % (util.error_class(e), str(e)[:100])
+        finally:
+            if old_home is None:
+                del os.environ['HOME']
+            else:
+                os.environ['HOME'] = old_home
+        cmp('query_csv+' + mode, data, dlm, pol, err)
+        # the command line
+        base = ['--delim', cli_dlm, '--query', qtext_csv] + (['--with-headers'] if has_header else [])
+        if mode != 'defpolicy':
+            base += ['--policy', pol]
+        if mode == 'comment':
+            base += ['--comment-prefix=' + prefix] if prefix.startswith('-') else ['--comment-prefix', prefix]
+        if mode == 'latin1':
+            base += ['--encoding', 'latin-1']
+        if mode == 'init' and not use_home:
+            base += ['--init-source-file', init_file]
+        e = dict(os.environ, PYTHONPATH=env.PY_PKG_DIR, PYTHONDONTWRITEBYTECODE='1', HOME=home, PYTHONWARNINGS='ignore')
+        for via in ('file', 'stdin'):
+            if via == 'file':
+                os.unlink(outp) if os.path.exists(outp) else None
+                p = subprocess.run([sys.executable, '-W', 'ignore', '-m', 'rbql'] + base + ['--input', inp, '--output', outp], env=e, cwd=d, stdout=subprocess.PIPE, stderr=subprocess.PIPE, timeout=120)
+            else:
+                with open(inp, 'rb') as f:
+                    p = subprocess.run([sys.executable, '-W', 'ignore', '-m', 'rbql'] + base, env=e, cwd=cd, input=f.read(), stdout=subprocess.PIPE, stderr=subprocess.PIPE, timeout=120)
+            res.count('cli_runs')
+            front = 'cli-%s+%s' % (via, mode)
+            if p.returncode != 0 or (via == 'file' and p.stdout):
+                res.violation('py:cli-exit-status-or-stdout:' + via, '[%s] %s: exit %d stdout %r stderr %r' % (front, qtext_csv, p.returncode, p.stdout[:80], p.stderr[-200:]), dict(cs, front_end=front))
+                continue
+            if via == 'file':
+                with open(outp, 'rb') as f:
+                    data = f.read()
+            else:
+                data = p.stdout
+            cmp(front, data, dlm, pol)
+        if mode == 'init' and has_header and len(set(an)) == len(an) and (bn is None or len(set(bn)) == len(bn)):
+            db = os.path.join(cd, 'db.sqlite')
+            conn = sqlite3.connect(db)
+            conn.execute('CREATE TABLE t (%s)' % ', '.join('%s TEXT' % x for x in an))
+            conn.executemany('INSERT INTO t VALUES (%s)' % ','.join('?' * len(an)), A)
+            if B is not None:
+                conn.execute('CREATE TABLE b (%s)' % ', '.join('%s TEXT' % x for x in bn))
+                conn.executemany('INSERT INTO b VALUES (%s)' % ','.join('?' * len(bn)), B)
+            conn.commit()
+            conn.close()
+            with open(init_file, 'w') as f:
+                f.write(init)
+            p = subprocess.run([sys.executable, '-W', 'ignore', '-m', 'rbql', 'sqlite', db, '--input', 't', '--query', qtext, '--init-source-file', init_file], env=e, cwd=d, stdout=subprocess.PIPE, stderr=subprocess.PIPE, timeout=120)
+            res.count('cli_runs')
+            if p.returncode != 0:
+                res.violation('py:cli-exit-status-or-stdout:sqlite', '[cli sqlite+init] %s: exit %d stderr %r' % (qtext, p.returncode, p.stderr[-200:]), dict(cs, front_end='cli-sqlite+init'))
+            else:
+                cmp('cli-sqlite+init', p.stdout, ',', 'quoted_rfc')
+        shutil.rmtree(cd, ignore_errors=True)
+        if n % 23 == 0:
+            res.sample({'leg': 'options', 'mode': mode, 'query_csv': qtext_csv, 'input_file': ta, 'join_file': tb, 'reference_rows': exp_rows[:4]})
+
+
 def failing_leg(ns, res, spec, d, rng):
     """Exit status, Error [type] line, warnings on stderr."""
     inp = os.path.join(d, 'in_1.csv')
@@ -472,14 +664,16 @@ def plan(tier, seed):
     k = NSHARDS[tier]
     specs = [{'kind': 'cases', 'k': k, 'i': i, 'n': max(1, CASES[tier] // k)} for i in range(k)]
     specs.append({'kind': 'failing', 'k': 1, 'i': 0})
+    ko = {'quick': 4, 'thorough': 8}[tier]
+    specs += [{'kind': 'options', 'k': ko, 'i': i + 1000, 'n': {'quick': 40, 'thorough': 300}[tier]} for i in range(ko)]
     return specs
 
 
 def summarize(tier, seed, m):
     fe = {k[10:]: v for k, v in m['counters'].items() if k.startswith('front_end:')}
     return {
-        'rule': 'rectangular string tables (0-5 rows, 1-4 columns, cells with spaces, quotes, commas, non-ASCII, empty; one case in six with line breaks inside cells, run through the quoted_rfc dialect; duplicated column names in 15% of the headed cases; no tabs) with and without header; type-agnostic structured queries (select / where / order / distinct / distinct count / top / inner join / update / except / aggregates) rotating systematically over clause combinations; each executed through query_table (reference) and through 8 entry points: rbql.query with user-written iterator / writer / registry classes, query_csv, CLI file -> file and stdin -> stdout in the three output formats, query_pandas_dataframe, query_sqlite_to_csv, CLI sqlite; plus failing queries (parsing, execution, IO, syntax) x {file, stdout, sqlite} for exit status / Error [type] on stderr, and warning routing. distinct_nontrivial = distinct (query, tables) with a non-empty result + failing scenarios.',
-        'required': ['cases', 'multiline_cases', 'front_end:query+user-classes', 'front_end:query_csv', 'front_end:pandas', 'front_end:sqlite', 'front_end:cli-sqlite', 'front_end:cli-file-tsv', 'front_end:cli-file-csv', 'front_end:cli-file-input', 'front_end:cli-stdin-stdout-csv', 'cli_failing_runs', 'cli_failing_runs_empty_message', 'cli_warning_runs'],
+        'rule': 'rectangular string tables (0-5 rows, 1-4 columns, cells with spaces, quotes, commas, non-ASCII, empty; one case in six with line breaks inside cells, run through the quoted_rfc dialect; duplicated column names in 15% of the headed cases; no tabs) with and without header; type-agnostic structured queries (select / where / order / distinct / distinct count / top / inner join / update / except / aggregates) rotating systematically over clause combinations; each executed through query_table (reference) and through 8 entry points: rbql.query with user-written iterator / writer / registry classes, query_csv, CLI file -> file and stdin -> stdout in the three output formats, query_pandas_dataframe, query_sqlite_to_csv, CLI sqlite; plus failing queries (parsing, execution, IO, syntax) x {file, stdout, sqlite} for exit status / Error [type] on stderr, and warning routing; plus an options leg over the parameters of the CSV entry points, each compared with query_table over the same data: comment lines (8 prefixes, before the header, between records, at the end, in the join file too) with comment_prefix / --comment-prefix, user variables and functions from an init source (user_init_code, --init-source-file, ~/.rbql_init_source.py under a private HOME; CLI sqlite too), latin-1 files with cells over the whole 0x80-0xff range and --encoding latin-1, and the policy the command line picks when --policy is left out (quoted for , and ; / whitespace for a space / simple otherwise) with a cell whose CSV form depends on the policy. distinct_nontrivial = distinct (query, tables) with a non-empty result + failing scenarios.',
+        'required': ['cases', 'multiline_cases', 'front_end:query+user-classes', 'front_end:query_csv', 'front_end:pandas', 'front_end:sqlite', 'front_end:cli-sqlite', 'front_end:cli-file-tsv', 'front_end:cli-file-csv', 'front_end:cli-file-input', 'front_end:cli-stdin-stdout-csv', 'cli_failing_runs', 'cli_failing_runs_empty_message', 'cli_warning_runs', 'option_cases:comment', 'option_cases:init', 'option_cases:latin1', 'option_cases:defpolicy', 'front_end:cli-file+comment', 'front_end:cli-stdin+init', 'front_end:cli-sqlite+init', 'front_end:query_csv+latin1', 'front_end:cli-file+defpolicy'],
         'extra': {'front_end_comparisons': fe},
         'assumptions': ['query_table is the reference (pinned by C01-C05, C07)', 'types are not compared across back ends (CSV and pandas stringify): cells are compared after the stringification every CSV sink applies', 'scratch files are named in.csv / jn.csv / in_<n>.csv / jn_<n>.csv in a directory c<n> per case: a path containing an a./b. token under a header is the C08 known finding, not a front-end difference'],
     }
